@@ -46,7 +46,7 @@ def cases(tier, seed):
                 for (eq_type, dx) in EQS:
                     for it in ("none", "scale"):
                         for ot in ("none", "inputs", "param"):
-                            for shared in ((False, True) if o == 3 else (False,)):
+                            for shared in ((False, True, "int") if o == 3 else (False,)):
                                 for bare in ((False, True) if (it == "none" and ot != "param") else (False,)):
                                     for tshape in (("0d", "1") if eq_type == "ODE" else ("1",)):
                                         i += 1
@@ -66,7 +66,7 @@ def cases(tier, seed):
         for hidden in ((2,), (3, 2)):
             for (eq_type, dx) in (("ODE", 0), ("statio_PDE", 2), ("nonstatio_PDE", 1)):
                 for o in (1, 2):
-                    for shared in ((False, True) if o == 2 else (False,)):
+                    for shared in ((False, True, "int") if o == 2 else (False,)):
                         out.append(dict(type="hyper", hp=hp, hidden=list(hidden), eq_type=eq_type, dx=dx, o=o, shared=shared, key=seed + 13))
     return out
 
@@ -112,6 +112,8 @@ def run_pinn(case):
     it = (lambda inp, p: inp * p.eq_params["s"]) if case["it"] == "scale" else None
     ot = {"none": None, "inputs": (lambda inp, out, p: out + jnp.sum(inp)), "param": (lambda inp, out, p: out * p.eq_params["s"] + jnp.sum(out))}[case["ot"]]
     slices = (jnp.s_[0:2], jnp.s_[2:3]) if case["shared"] else None
+    if case["shared"] == "int":
+        slices = (jnp.s_[0:2], jnp.s_[2])  # an integer selects one output; the component axis must survive
     us = jinns.utils.create_PINN(key, eqx_list(n_in, case["hidden"], o, case["act"]), eq_type, dx, input_transform=it, output_transform=ot, shared_pinn_outputs=slices)
     us = us if case["shared"] else [us]
     site = "PINN"
@@ -210,6 +212,8 @@ def run_hyper(case):
     hsize = sum(int(np.asarray(eqp[k]).size) for k in hp)
     hyper_list = ((eqx.nn.Linear, hsize, 4), (jnp.tanh,), (eqx.nn.Linear, 4, 1000))
     slices = (jnp.s_[0:1], jnp.s_[1:2]) if case["shared"] else None
+    if case["shared"] == "int":
+        slices = (jnp.s_[0:1], jnp.s_[1])
     us = jinns.utils.create_HYPERPINN(key, eqx_list(n_in, case["hidden"], o, "tanh"), eq_type, hp, hsize, dx, shared_pinn_outputs=slices, eqx_list_hyper=hyper_list)
     us = us if case["shared"] else [us]
     v = []
